@@ -1,9 +1,9 @@
 """C09 — FRI rejects far-from-low-degree data and inconsistent openings.
-spec/fri/GenFriAttack.tla builds, over the toy fields, instances of nine classes (evaluations of
+spec/fri/GenFriAttack.tla builds, over the toy fields, instances of ten classes (evaluations of
 polynomials above the bound / arbitrary functions, a high-degree polynomial whose excess TLC's alpha
 cancels, understated bounds with the same and with a smaller inferred domain, a changed layer value,
 a kernel-vector forgery of a layer coset, a changed remainder coefficient, a remainder crafted to
-agree at every queried point, a changed query evaluation) and evaluates on each the verifier of
+agree at every queried point, a changed query evaluation, every revealed value changed one at a time) and evaluates on each the verifier of
 spec/fri/Fri.tla twice: with commitments compared (strict) and with nothing compared (perm).  These
 computed verdicts are the expectations.  The harness runs the honest prover with TLC's scripted
 challenges, writes TLC's substituted values into the proof and runs the REAL FriVerifier over
@@ -129,7 +129,7 @@ def run(ck, tier):
     if info1 or info2:
         vf.log("[C09] note (not gating): %s %s" % (dict(info1), dict(info2)))
     ck.part("agreement", spec_accept_real_reject=over)
-    ck.bounds = {"toy": "every schedule with domain 8..%d, blowup/folding {2,4,8,16}, remainder degree 0..15; %s case(s) per applicable class" % ((256, 8) if tier == "thorough" else (128, 2)),
+    ck.bounds = {"toy": "every schedule with domain 8..%d, blowup/folding {2,4,8,16}, remainder degree 0..15; %s case(s) per applicable class" % ((256, 16) if tier == "thorough" else (128, 2)),
                  "real": "f64,f62 x ext 1,2,3, f128 x ext 1,2, all hash functions; domain 32..2^%d; classes %s" % (12 if tier == "thorough" else 10, ",".join(REAL_CLASSES))}
     ck.exhaustive = False
     ck.assumptions = ["hash functions are ideal in the specification: a changed committed value is a commitment mismatch",
